@@ -126,6 +126,12 @@ pub fn lockstep(api: &Api, it: &InTuple, seed: u64, cx: &mut Cx) {
         }
         Err(e) => return fail(ob.cx, "setup_pk", &e),
     }
+    match api.setup_sk(&Blob::n(&setup)) {
+        Ok(sk) => {
+            ob.eq("setup", "private key returned by keypair().private()", &sk, &ssk);
+        }
+        Err(e) => return fail(ob.cx, "setup_sk", &e),
+    }
     let ids_v: Option<Vec<u8>> = if it.ids_is_server_pk { Some(spk.clone()) } else { p.ids.clone() };
     let ids_ = Ids { client: o(&p.idu), server: ids_v.as_deref() };
     // ---- registration
